@@ -1302,6 +1302,11 @@ def rewrite_fn(item, fc, cfg, opts, overlay):
     body = rewrite_macros(body)
     if opts.get("anyhow"):
         body = rewrite_anyhow(body)
+    if opts.get("print_model"):
+        # R21: stdout as a ghost log threaded through the listed free functions
+        body = rewrite_print(body, set(opts["print_model"]))
+        if item.name in opts["print_model"] and getattr(item, "parent", None) is None:
+            hdr = add_print_param(hdr, item.name)
     for pat, repl, _, _ in (fc.substs if fc else []):
         n = apply_subst(body, pat, repl) + apply_subst(hdr, pat, repl)
         if n == 0:
@@ -1693,6 +1698,8 @@ def assemble(repo, unit, cfg, opts=None):
                 # that callers still verify) and record it; the back end makes it a suspect obligation
                 LOST.append((it.path, "not extractable: %s" % e))
                 hdr = strip_inner_attrs(list(it.header), cfg)
+                if it.name in (opts.get("print_model") or ()) and getattr(it, "parent", None) is None:
+                    hdr = add_print_param(hdr, it.name)
                 for pat, repl, _, _ in fc.substs:
                     apply_subst(hdr, pat, repl)
                 for pat, repl, _, _ in ov.global_substs:
